@@ -12,6 +12,9 @@ MODULE_CONSTS = {"Trace_Obs": {"MCMode": "off"}}
 ALL = replay.ALL_ACTS
 NO_INDEX = [a for a in ALL if a != "Index"]
 
+PUSHED = ["Index", "Take", "Rechunk"]
+CHAIN = ["Index", "Rechunk", "Transpose", "Elemwise", "Reduce"]
+
 # Compositions excluded from the deep corpora.  Every pair is tied to a finding recorded in
 # known_findings.jsonl: the composition already fails on the unchanged tree, so a corpus containing it
 # could not tell a new defect from the known one.  The findings' own witness programs are still replayed.
@@ -29,6 +32,14 @@ CORPORA = {
     "d2-lean1": dict(acts=ALL, maxlen=2, preset="lean1", sim=False, lean=True, excl=EXCL_DEEP, workers=4),
     "d2-lean2": dict(acts=ALL, maxlen=2, preset="lean2", sim=False, lean=True, excl=EXCL_DEEP, workers=4),
     "d2-lean3": dict(acts=ALL, maxlen=2, preset="lean3", sim=False, lean=True, excl=EXCL_DEEP, workers=4),
+    # anything, then an operation the optimizer pushes down (slice / take=shuffle / rechunk)
+    "d2-push1": dict(acts=ALL, acts2=PUSHED, maxlen=2, preset="lean1", sim=False, lean=True, excl=EXCL_DEEP, workers=4),
+    "d2-push2": dict(acts=ALL, acts2=PUSHED, maxlen=2, preset="lean2", sim=False, lean=True, excl=EXCL_DEEP, workers=4),
+    "d2-push3": dict(acts=ALL, acts2=PUSHED, maxlen=2, preset="lean3", sim=False, lean=True, excl=EXCL_DEEP, workers=4),
+    # three-step chains of structural operations and pushed-down operations
+    "d3-chain1": dict(acts=CHAIN, maxlen=3, preset="lean1", sim=False, lean=True, excl=EXCL_DEEP, workers=8),
+    # slice / rechunk chains (what gets composed and pushed into sources)
+    "d3-sr1": dict(acts=["Index", "Rechunk"], maxlen=3, preset="lean1", sim=False, lean=True, workers=4),
 }
 
 
@@ -40,79 +51,87 @@ def stride_sample(behs, stride, offset=0):
     return keyed[offset % stride::stride]
 
 
-def run_plans(chk, rd, plans, observers, *, opts=None, module="Trace_Obs", shards=8, on_problem=None, selftest=None,
+def run_plans(chk, rd, plans, observers, *, opts=None, module="Trace_Obs", shards=12, on_problem=None, selftest=None,
               accept_verdict=None, on_raised=None):
     """plans: list of (corpus name, max grid variants per program, stride).
+    Replays every plan, then validates all recorded observations with TLC in one sharded run.
     Returns total number of validated observations."""
+    import time as _t
+
     opts = dict(opts or {})
-    total = 0
-    did_selftest = False
+    evs, refs, stats = [], {}, {}
     for name, maxvar, stride in plans:
         kw = dict(CORPORA[name])
+        t0 = _t.time()
         behs, res = replay.generate_programs(rundir=rd, timeout=3000, **kw)
+        t_gen = _t.time() - t0
         chk.add_tlc(res, f"gen:{name}")
+        nbehs = len(behs)
         picked = stride_sample(behs, stride, chk.seed)
+        del behs
         o = dict(opts)
         if kw["maxlen"] > 1 and "last_only" not in o:
             o["last_only"] = True      # the prefixes are programs of the shallower corpora
+        t0 = _t.time()
         out = replay.run_corpus(picked, observers=observers, max_variants=maxvar, seed=chk.seed, opts=o)
+        t_replay = _t.time() - t0
         if out.machinery:
             raise tlc.MachineryError(f"spec/NumPy disagreement ({len(out.machinery)}): {out.machinery[0]}")
         if on_problem is not None:
             for case, clause in out.violations:
                 on_problem(dict(case, corpus=name), clause)
         raised = [e for e in out.events if e.get("fn", "").endswith("-raised")]
-        evs = [e for e in out.events if not e.get("fn", "").endswith("-raised")]
+        mine = [e for e in out.events if not e.get("fn", "").endswith("-raised")]
         if on_raised is not None:
             for e in raised:
                 on_raised(dict(e, **(e.pop("_ref", None) or {}), corpus=name))
-        refs = {}
-        for k, e in enumerate(evs):
-            e["id"] = k + 1
-            refs[k + 1] = e.pop("_ref", None)
-        rejects = []
-        if evs:
-            rejects, results = casemod.validate(module, evs, rd, f"{chk.pid}-{name}", shards=shards, timeout=3000, heap="3g",
-                                                consts=MODULE_CONSTS.get(module))
-            for r in results:
-                chk.add_tlc(r, f"validate:{name}")
-        by_id = {e["id"]: e for e in evs}
-        nrej = 0
-        for cid, clause in rejects:
-            if accept_verdict is not None and accept_verdict(clause):
-                continue
-            e = by_id[cid]
-            case = dict(e, **(refs[cid] or {}), corpus=name)
-            chk.violation(case, clause)
-            nrej += 1
-        chk.cov["evaluations"] += len(evs)
-        chk.cov["traces_validated_against_impl"] += len(evs)
-        total += len(evs)
-        okv = {}
-        for cid, clause in rejects:
-            if accept_verdict is not None and accept_verdict(clause):
-                okv[clause] = okv.get(clause, 0) + 1
-        chk.part(f"replay:{name}", behaviours=len(behs), replayed_behaviours=len(picked), programs_replayed=out.n_programs,
-                 observations=len(evs), not_observable_raised=len(raised), rejected=nrej, accepted_special=okv, actions=out.stats, stride=stride, max_variants=maxvar)
-        for e in evs:
-            chk.nontrivial(("o", name, e["id"]))
-        if evs:
-            smp = dict(evs[len(evs) // 2])
+        for e in mine:
+            e["id"] = len(evs) + 1
+            e["corpus"] = name
+            refs[e["id"]] = e.pop("_ref", None)
+            evs.append(e)
+        stats[name] = dict(wall_generate_s=round(t_gen, 1), wall_replay_s=round(t_replay, 1), behaviours=nbehs,
+                           replayed_behaviours=len(picked), programs_replayed=out.n_programs, observations=len(mine),
+                           not_observable_raised=len(raised), rejected=0, accepted_special={}, actions=out.stats, stride=stride,
+                           max_variants=maxvar)
+        if mine:
+            smp = dict(mine[len(mine) // 2])
             chk.sample({"corpus": name, "observation": _shorten(smp), "program": (refs[smp["id"]] or {}).get("prog")})
-        if selftest is not None and evs and not did_selftest:
-            bad = selftest([json.loads(json.dumps(e)) for e in evs[:400]])
-            bad = [b for b in bad if b is not None]
-            if bad:
-                rej, _ = casemod.validate(module, bad, rd, f"{chk.pid}-selftest", shards=2, timeout=900, heap="2g", consts=MODULE_CONSTS.get(module))
-                got = {cid for cid, _ in rej}
-                want = {b["id"] for b in bad}
-                if not bad or got != want:
-                    raise tlc.MachineryError(f"binding self-test failed: {len(got)} of {len(want)} corrupted observations rejected")
-                chk.part("selftest:corrupted-observations", corrupted=len(want), rejected=len(got), passed=True)
-                did_selftest = True
-    if selftest is not None and not did_selftest:
-        raise tlc.MachineryError("binding self-test did not run (no observation to corrupt)")
-    return total
+    rejects = []
+    t0 = _t.time()
+    if evs:
+        rejects, results = casemod.validate(module, evs, rd, f"{chk.pid}-obs", shards=shards, timeout=3000, heap="3g",
+                                            consts=MODULE_CONSTS.get(module))
+        for r in results:
+            chk.add_tlc(r, "validate:observations")
+    by_id = {e["id"]: e for e in evs}
+    for cid, clause in rejects:
+        e = by_id[cid]
+        st = stats[e["corpus"]]
+        if accept_verdict is not None and accept_verdict(clause):
+            st["accepted_special"][clause] = st["accepted_special"].get(clause, 0) + 1
+            continue
+        chk.violation(dict(e, **(refs[cid] or {})), clause)
+        st["rejected"] += 1
+    chk.cov["evaluations"] += len(evs)
+    chk.cov["traces_validated_against_impl"] += len(evs)
+    for name, st in stats.items():
+        chk.part(f"replay:{name}", **st)
+    chk.part("validate:observations", wall_s_real=round(_t.time() - t0, 1), shards=shards)
+    for e in evs:
+        chk.nontrivial(("o", e["id"]))
+    if selftest is not None:
+        bad = [b for b in selftest([json.loads(json.dumps(e)) for e in evs[:600]]) if b is not None] if evs else []
+        if not bad:
+            raise tlc.MachineryError("binding self-test did not run (no observation to corrupt)")
+        rej, _ = casemod.validate(module, bad, rd, f"{chk.pid}-selftest", shards=2, timeout=900, heap="2g",
+                                  consts=MODULE_CONSTS.get(module))
+        got = {cid for cid, cl in rej if not (accept_verdict is not None and accept_verdict(cl))}
+        want = {b["id"] for b in bad}
+        if got != want:
+            raise tlc.MachineryError(f"binding self-test failed: {len(got)} of {len(want)} corrupted observations rejected")
+        chk.part("selftest:corrupted-observations", corrupted=len(want), rejected=len(got), passed=True)
+    return len(evs)
 
 
 def _shorten(o, limit=600):
